@@ -1,5 +1,6 @@
 import I2N.Lemmas.Trav
 import I2N.Lemmas.TravResults
+import I2N.Lemmas.TravBudget
 import I2N.Model.TravMon
 /-!
 # C03 — No test is executed more often than its retry budget per reuse scope
@@ -306,11 +307,13 @@ theorem budget_stateless {g : Graph} (hwf : graphWF g = true) {ncls : Nat} {stor
 only (a) on the scan path — nobody of the scope finished the class and the state control reports a set state
 missing; neither earlier results nor executions in flight are looked at — or (b) by the rerun rule,
 `max_tries ≠ 1` and fewer counted results in the reuse scope (placeholders included) than `max_tries`.
-NOT proved (and false in general, see the witness below): a bound of `max(max_tries, 1)` on the number of
-executions per scope along runs.  The missing part is a bound on the number of scan-path starts, which needs
-the exclusion invariant of C04 (`#started copies in scope ≤ max(max_concurrent_tries, 1)` while nobody
-finished) under `max_concurrent_tries ≤ max(max_tries, 1)`, and the agreement of the scope filter on result
-names with the scope of `is_finished`. -/
+The run-level bound built on this rule is `budget_stateful` below (classes without object roots; the bound is
+`max(max_tries, 1, largest is_occupied threshold)`, which is `max(max_tries, 1)` when `max_concurrent_tries` is unset or
+within `max(max_tries, 1)` and no re-entrancy bump happened).  STILL NOT proved: object roots with `max_tries ≤ 1`
+(true by the same argument with the creations in flight counted as results-to-be: with `max_tries ≤ 1` the rerun rule
+never fires, and on the scan path creations and results together number at most the marks in scope); for object roots
+with `max_tries ≥ 2` the bound is false (`root_creation_hidden`), as it is for `max_concurrent_tries > max_tries`
+(witness below). -/
 theorem budget_stateful_partial (g : Graph) (s : State) (n w : Nat) (s1 : State) (evs : List Event)
     (hsets : (g.node n).sets.isEmpty = false) (h : runDecision g s n w = .ok (true, s1, evs)) :
     (isFinished g s n w 1 = false ∧ (scanStates g s n w).1 = true) ∨
@@ -373,6 +376,160 @@ example : (match (sS2.wd 0).pc, (sS2.wd 1).pc with
 example : sS3.jobResults = [("all.quicktest.vms.vm1.nets.localhost.net1", "1a1", "FAIL", 3)] ∧
     (sS3.nd 0).results.map (·.status) = ["FAIL"] ∧ (sS3.nd 1).results.map (·.status) = ["UNKNOWN"] ∧
     inTestAt sS3 0 0 .plain = false := by decide +kernel
+
+/-!
+### The budget of stateful (setup) classes along every run
+
+Vocabulary (`Lemmas/TravBudget.lean`, `Lemmas/TravExcl.lean`): `sharedFilteredResults g s n (some v)` is the very list
+`should_rerun` counts for copy `n` with `started_worker = v` (`shared_filtered_results`: the results of all bridged copies
+whose name contains the scope filter of `v`); `classLimit g s c` is the largest threshold `is_occupied` has had in force
+for a copy of class `c` (`max(max_concurrent_tries (default max_tries (default 1)), 1)`, plus the re-entrancy bumps);
+`NoBump s`: no bounce has outlasted the timeout budget of the node it waited for (the documented recovery path raises
+the threshold then, and the guarantee is void, as in C04).
+
+`statefulClass g c M sh` (decidable, static) — each clause is needed, witnesses below and in `design.d/C03.md`:
+* the copies of class `c` are parsed, have set states (stateless classes: `budget_stateless`), agree on `max_tries = M`
+  and on the scope shape `sh` (C04's `mixed_shapes_overlap`), and the root of the graph is not one of them;
+* no copy is an object root — FALSE otherwise for `max_tries ≥ 2`: `root_creation_exceeds_budget` (known finding
+  `count:object-root-creation-hidden-from-retry-budget`);
+* a copy is cared for by at most one worker (`worker.id in name` holds for one worker only) — the `started` and `finished`
+  marks of a copy are single slots, a second worker on the same copy overwrites them;
+* the filter on result names agrees with the scope of `is_started`/`is_finished`: observer `v` counts the results of
+  `u`'s copy iff `u` is within `v`'s scope (`own`: `u = v`, `swarm`: same swarm, `global`: always).
+-/
+
+/-- **budget_stateful** (C03 for setup classes).  In every reachable state — any graph, any number of workers, any
+interleaving, any outcomes, lazy expansion included — for a class `c` of stateful tests proper satisfying the static,
+decidable `statefulClass g c M sh`: the results of the class that any observer `v` counts in its reuse scope
+(placeholders of executions in flight included, `unknown_before_suspend`) number at most
+`max(max_tries, 1, largest is_occupied threshold of the class so far)`; and when `max_concurrent_tries` is unset or at
+most `max(max_tries, 1)` on every copy and no re-entrancy bump has happened, at most `max(max_tries, 1)`.
+Every start appends exactly one result (`start_appends_one`), a placeholder is replaced by the result of its own
+execution (`results_monotone`): within one reuse scope the class is started at most that often along any run. -/
+theorem budget_stateful {g : Graph} (hwf : graphWF g = true) {ncls : Nat} {store : List (String × List (String × String))}
+    {s : State} (hr : ReachableR g ncls store s) (c : Nat) (M : Option Int) (sh : Shape)
+    (hc : statefulClass g c M sh = true) (n : Nat) (hn : n < g.nodes.length) (hnc : (g.node n).cls = c)
+    (v : Nat) (hv : v < g.workers.length) :
+    ((sharedFilteredResults g s n (some v)).length : Int) ≤ max (max (M.getD 1) 1) (classLimit g s c) ∧
+    (mctWithin g c M = true → NoBump s →
+      ((sharedFilteredResults g s n (some v)).length : Int) ≤ max (M.getD 1) 1) := by
+  have h := hr.budgetStateful hwf hc n hn hnc v hv
+  refine ⟨h, fun hm hb => ?_⟩
+  have := classLimit_le_of_mctWithin (statefulClass_spec hc) hm s hb
+  omega
+
+/-- what made the scan path countable: in every reachable state, a copy of the class has results only if its
+worker's scope is past the scan path (somebody of the scope carries the `finished` mark of a copy), or else the only
+result is the placeholder of the execution in flight on that very copy, whose worker holds the copy's `started` mark -/
+theorem scan_phase_results {g : Graph} (hwf : graphWF g = true) {ncls : Nat} {store : List (String × List (String × String))}
+    {s : State} (hr : ReachableR g ncls store s) (c : Nat) (M : Option Int) (sh : Shape)
+    (hc : statefulClass g c M sh = true) (j : Nat) (hj : j < g.nodes.length) (hjc : (g.node j).cls = c)
+    (hne : (s.nd j).results ≠ []) :
+    (∃ u tag ph dir uid wait, (s.wd u).pc = .test j ph dir uid tag wait ∧ (s.nd j).results = [phOf (g.node j).name tag] ∧
+      (s.nd j).started = some u ∧ g.idIn u j = true) ∨
+    (∃ u, u < g.workers.length ∧ g.idIn u j = true ∧ FinIn g s c sh u) := by
+  have b := hr.binv hwf (statefulClass_spec hc)
+  rcases b.p1 j hj hjc hne with ⟨u, tag, _, ⟨ph, dir, uid, wait, hpc⟩, hres⟩ | h
+  · obtain ⟨_, _, h3, h4⟩ := b.infl u trivial j ph dir uid tag wait hpc hjc
+    exact Or.inl ⟨u, tag, ph, dir, uid, wait, hpc, hres, h4, h3⟩
+  · exact Or.inr h
+
+/-! Non-vacuity, and the bound is attained: three workers, a setup class with `max_tries = 2` (threshold 2).  net1 and
+net2 both start it on the scan path (nobody has finished yet — the scan path does not look at results), net3 finds the
+class occupied; net1 fails; net3 comes back, finds the class finished and the budget used up, and does not run. -/
+
+def gT : Graph :=
+  { workers := [{ id := "net1", swarm := "lh" }, { id := "net2", swarm := "lh" }, { id := "net3", swarm := "lh" }],
+    nodes := [
+      { cls := 0, owner := some 0, name := "install.vm1.lh.net1", pfx := "1a1",
+        sets := [("vm1", "install")], objs := ["vm1"], setup := [(3, ["vm1"])], maxTries := some 2 },
+      { cls := 0, owner := some 1, name := "install.vm1.lh.net2", pfx := "1b1",
+        sets := [("vm1", "install")], objs := ["vm1"], setup := [(3, ["vm1"])], maxTries := some 2 },
+      { cls := 0, owner := some 2, name := "install.vm1.lh.net3", pfx := "1c1",
+        sets := [("vm1", "install")], objs := ["vm1"], setup := [(3, ["vm1"])], maxTries := some 2 },
+      { cls := 1, owner := none, name := "noop", pfx := "1", flat := true, sharedRoot := true,
+        cleanup := [(0, ["vm1"]), (1, ["vm1"]), (2, ["vm1"])] }],
+    root := 3 }
+
+def sT1 : State := (resume gT (initState gT 2 []) 0 { status := none } 20).1
+def sT2 : State := (resume gT sT1 1 { status := none } 20).1
+def sT3 : State := (resume gT sT2 2 { status := none } 20).1
+def sT4 : State := (resume gT sT3 0 { status := some "FAIL", dur := 1 } 20).1
+def sT5 : State := (resume gT sT4 2 { status := none } 20).1
+
+example : graphWF gT = true ∧ statefulClass gT 0 (some 2) .global = true ∧ mctWithin gT 0 (some 2) = true := by decide +kernel
+example : ReachableR gT 2 [] sT5 :=
+  .step 2 _ 20 (.step 0 _ 20 (.step 2 _ 20 (.step 1 _ 20 (.step 0 _ 20 (.init []) (by decide) (by decide))
+    (by decide) (by decide)) (by decide) (by decide)) (by decide) (by decide)) (by decide) (by decide)
+set_option maxRecDepth 100000 in
+example : inTestAt sT3 0 0 .plain = true ∧ inTestAt sT3 1 1 .plain = true ∧ isOccupied gT sT3 2 2 = true ∧
+    (sharedFilteredResults gT sT3 2 (some 2)).length = 2 ∧ sT3.nodes.all (fun d => d.bump == 0) = true := by decide +kernel
+set_option maxRecDepth 100000 in
+example : (sT5.nd 0).results.map (·.status) = ["FAIL"] ∧ (sT5.nd 1).results.map (·.status) = ["UNKNOWN"] ∧
+    (sT5.nd 2).results = [] ∧ (sT5.nd 2).finished = some 2 ∧ inTestAt sT5 2 2 .plain = false ∧
+    (sharedFilteredResults gT sT5 2 (some 2)).length = 2 := by decide +kernel
+
+/-! Why object roots must be excluded (known finding `count:object-root-creation-hidden-from-retry-budget`, here with
+retries configured and `max_concurrent_tries` unset: `max_tries = 2`).  The creation pre-step keeps its placeholder on a
+private copy of the results, and its success starts the test proper WITHOUT a further decision
+(`creation_success_starts_unconditionally`), so creations in flight are results-to-be that nobody counts.  In `sRR` both
+workers are inside the creation (threshold 2) and the class has no result.  From there (evaluated with the compiled model,
+`design.d/C03.md`; the kernel cannot evaluate `String.splitOn` in the pre-step's name): net2's creation fails — one result
+— net2 is let in again by the rerun rule (1 < 2) and starts a second creation; then both creations succeed and both tests
+proper start: three results with `max(max_tries, 1) = 2`, no bump. -/
+
+/-- a successful creation pre-step is followed by the start of the test proper, whatever the results of the class
+are by then: no run decision, no look at the budget -/
+theorem creation_success_starts_unconditionally (g : Graph) (w n : Nat) (dir : Dir) (fuel : Nat) (s : State) (evs : List Event) :
+    resumeTest.continueAfter g w n .pre dir fuel s true evs =
+      ((startTest g s n w .main dir).1, evs ++ (startTest g s n w .main dir).2.1) := rfl
+
+def gRR : Graph :=
+  { workers := [{ id := "net1", swarm := "localhost" }, { id := "net2", swarm := "localhost" }],
+    nodes := [
+      { cls := 0, owner := some 0, name := "all.root.vms.vm1.nets.localhost.net1", pfx := "1a1", objectRoot := true,
+        sets := [("vm1", "root")], objs := ["vm1"], setup := [(2, ["vm1"])], maxTries := some 2 },
+      { cls := 0, owner := some 1, name := "all.root.vms.vm1.nets.localhost.net2", pfx := "1b1", objectRoot := true,
+        sets := [("vm1", "root")], objs := ["vm1"], setup := [(2, ["vm1"])], maxTries := some 2 },
+      { cls := 1, owner := none, name := "all.internal.stateless.noop", pfx := "1", flat := true, sharedRoot := true,
+        cleanup := [(0, ["vm1"]), (1, ["vm1"])] }],
+    root := 2 }
+
+def sRR : State := (resume gRR (resume gRR (initState gRR 2 []) 0 { status := none } 20).1 1 { status := none } 20).1
+
+set_option maxRecDepth 100000 in
+theorem root_creation_hidden :
+    ReachableR gRR 2 [] sRR ∧ statefulClass gRR 0 (some 2) .global = false ∧ mctWithin gRR 0 (some 2) = true ∧
+    (inTestAt sRR 0 0 .pre = true ∧ inTestAt sRR 1 1 .pre = true ∧ classLen gRR sRR 0 = 0 ∧ classLimit gRR sRR 0 = 2) :=
+  ⟨.step 1 _ 20 (.step 0 _ 20 (.init []) (by decide) (by decide)) (by decide) (by decide),
+   by decide +kernel, by decide +kernel, by decide +kernel⟩
+
+/-! Why a copy must be cared for by one worker only (`worker.id in params["name"]` is a substring test: `"net1"` occurs
+in the name of `net11`'s copy).  `net1` picks `net11`'s copy as if it were its own and starts the setup test on it; `net11`
+is not kept out (`own` scope: occupied only if `net11` itself holds the class), overwrites the `started` mark and starts the
+same copy again: two executions in flight on ONE copy, two results in `net11`'s own scope with `max_tries = 1`, threshold 1,
+no bump.  The real code does the same (`design.d/C03.md`: `net1` executes `net11`'s copy, the copy is executed three times). -/
+
+def gU : Graph :=
+  { workers := [{ id := "net11", swarm := "lh" }, { id := "net1", swarm := "lh" }],
+    nodes := [
+      { cls := 0, owner := some 0, name := "setup.vm1.lh.net11", pfx := "1a1", shape := .own,
+        sets := [("vm1", "s01")], objs := ["vm1"], setup := [(2, ["vm1"])] },
+      { cls := 0, owner := some 1, name := "setup.vm1.lh.net1", pfx := "1b1", shape := .own,
+        sets := [("vm1", "s01")], objs := ["vm1"], setup := [(2, ["vm1"])] },
+      { cls := 1, owner := none, name := "noop", pfx := "1", flat := true, sharedRoot := true,
+        cleanup := [(0, ["vm1"]), (1, ["vm1"])] }],
+    root := 2 }
+
+def sU : State := (resume gU (resume gU (initState gU 2 []) 1 { status := none } 20).1 0 { status := none } 20).1
+
+set_option maxRecDepth 100000 in
+theorem shared_copy_exceeds_budget :
+    ReachableR gU 2 [] sU ∧ statefulClass gU 0 none .own = false ∧ mctWithin gU 0 none = true ∧
+    (inTestAt sU 0 0 .plain = true ∧ inTestAt sU 1 0 .plain = true ∧
+      (sharedFilteredResults gU sU 0 (some 0)).length = 2 ∧ classLimit gU sU 0 = 1) :=
+  ⟨.step 0 _ 20 (.step 1 _ 20 (.init []) (by decide) (by decide)) (by decide) (by decide),
+   by decide +kernel, by decide +kernel, by decide +kernel⟩
 
 end budget
 
